@@ -147,7 +147,13 @@ func (g *treeGen) genModule(dir, mod string, unreadableKinds []string) ModSpec {
 			c.Class, c.Declared = "good", name
 			for k := 0; k < 1+r.Intn(2); k++ {
 				if len(g.names) > 0 && r.Chance(2, 3) {
-					c.Refs = append(c.Refs, g.names[r.Intn(len(g.names))])
+					// a reference is rendered into the text of the alias: only a name that IS a type name may be used
+					// (the names of a module-path entry such as "9lives" / "Invalid-mod" would make the file malformed)
+					if n := g.names[r.Intn(len(g.names))]; validTypeRef(n) {
+						c.Refs = append(c.Refs, n)
+					} else {
+						c.Refs = append(c.Refs, canon(implied([]string{g.pick(segPool)})))
+					}
 				} else {
 					var rs []string
 					for d := 0; d <= r.Intn(2); d++ {
@@ -821,6 +827,22 @@ func good(rel, declared string, marker int, refs ...string) FileSpec {
 
 func tsFile(rel, declared string, marker int, members ...string) FileSpec {
 	return FileSpec{Rel: rel, Kind: "file", Content: &Content{Class: "typeset", Declared: declared, Marker: marker, Members: members}}
+}
+
+// validTypeRef: every "::"-separated segment matches [A-Za-z][A-Za-z0-9_]* (what the type parser accepts as a type name)
+func validTypeRef(n string) bool {
+	for _, seg := range strings.Split(strings.TrimPrefix(n, "::"), "::") {
+		if seg == "" {
+			return false
+		}
+		for i, ch := range seg {
+			letter := (ch >= 'A' && ch <= 'Z') || (ch >= 'a' && ch <= 'z')
+			if !(letter || (i > 0 && (ch == '_' || (ch >= '0' && ch <= '9')))) {
+				return false
+			}
+		}
+	}
+	return true
 }
 
 func loads(ctx int, names ...string) []Op {
